@@ -31,7 +31,7 @@ def kernel_jobs(tier, lemmas):
         elif ar == 2: K, caps = (2 if tier == 'quick' else 3), (4, 16)
         elif ar == 3: K, caps = (1 if tier == 'quick' else 2), (4, 8)
         else: K, caps = 1, (4, 8) if tier == 'thorough' else (4,)
-        for Ks in wave.K_combos(ar, K):
+        for Ks in wave.K_combos(ar, K, total=4 if ar == 3 else None):          # 3 inputs: <= 2 each and <= 4 overall ((2,2,1), (2,2,2) took hours - measured)
             for inits in itertools.product((0, 1), repeat=ar):
                 for cap in caps:
                     J.append((name, Ks, inits, cap, None, False, lemmas))
@@ -96,7 +96,7 @@ def run(tier, seed):
         'explanation': 'states = completed symbolic paths through the real _wave_eval / s_to_c / whole WaveSim runs; transitions = solver-decided branch points; each path also replayed on float32 arrays',
         'functions_encoded': common.fn_sha(wave_sim._wave_eval, WaveSim.s_to_c, wave_sim.wave_assign_gpu.func if hasattr(wave_sim.wave_assign_gpu, 'func') else wave_sim.wave_assign_gpu,
                                            WaveSim.c_prop, wave_sim.level_eval_cpu, wave_sim.wave_capture_cpu),
-        'bounds': {'K per input': {'arity1': 4, 'arity2': 2 if tier == 'quick' else 3, 'arity3': 1 if tier == 'quick' else 2, 'arity4': 1}, 'caps': [4, 8, 16], 'luts': len(LUTS),
+        'bounds': {'K per input': {'arity1': 4, 'arity2': 2 if tier == 'quick' else 3, 'arity3': 1 if tier == 'quick' else '2 (<= 4 overall)', 'arity4': 1}, 'caps': [4, 8, 16], 'luts': len(LUTS),
                    'times': '[-1000,1000] real', 'delays': '[0,1000] real, 4 per line'},
         'exhaustive': False,
         'summary': f'{len(J)} kernel jobs, {rep.counts["paths"]} paths, {rep.counts["obligations"]} obligations, {rep.counts["discharged"]} discharged, {rep.counts["concolic_runs"]} float32 replays',
